@@ -182,11 +182,12 @@ def gen_leaf(ch: Choices):
     if k == "datetime":
         return ("datetime", ch.pick("w.dt", ["2020-01-02T03:04:05", "1999-12-31T23:59:59.250000", "2024-02-29T00:00:00",
                                                "2020-01-02T03:04:05+00:00", "2021-06-01T12:00:00.5+00:00", "2020-01-02T03:04:05+05:30",
-                                               "2020-01-02T03:04:05-08:00"]))
+                                               "2020-01-02T03:04:05-08:00", "2020-01-02T04:04:05+01:00", "2020-01-01T19:04:05-08:00"]))
     if k == "date":
         return ("date", ch.pick("w.date", ["2021-02-03", "1970-01-01"]))
     if k == "decimal":
-        return ("decimal", ch.pick("w.dec", ["1.50", "-0.001", "12345678901234567890.123"]))
+        # (equal values written differently stay different on the wire: 1.0 / 1.00, 0 / -0)
+        return ("decimal", ch.pick("w.dec", ["1.50", "-0.001", "12345678901234567890.123", "1.0", "1.00", "1", "0", "-0", "0.0"]))
     return ("uuid", ch.pick("w.uuid", ["12345678-1234-5678-1234-567812345678", "00000000-0000-0000-0000-000000000000"]))
 
 
@@ -487,6 +488,7 @@ class CallRec:
         self.inputs = None          # (query, opname, variables, objs)
         self.expected = None        # reference request, computed at call time (json requests)
         self.expected_vj = None
+        self.upload_data_now = None  # uid -> bytes, for Upload objects whose stream the caller replaced before this call
         self.outcome = None         # ("ok", value) | ("exc", typename, info)
         self.exc_obj = None
         self.response = None
@@ -529,6 +531,25 @@ def build_client(variant, own_transport: bool, server: SimServer, yield_point=No
             hc = httpx.Client(transport=SyncSimTransport(server, yield_point), headers=dict(CLIENT_HEADERS))
         client = pkg.Client(http_client=hc, headers=dict(CLIENT_HEADERS), **kw)
     return client, N
+
+
+def _uploads_in(v, depth=0):
+    """Upload objects anywhere in a variables value."""
+    out = []
+    if depth > 8:
+        return out
+    if type(v).__name__ == "Upload" and hasattr(v, "filename"):
+        return [v]
+    if isinstance(v, dict):
+        for x in v.values():
+            out += _uploads_in(x, depth + 1)
+    elif isinstance(v, (list, tuple)):
+        for x in v:
+            out += _uploads_in(x, depth + 1)
+    elif hasattr(v, "model_fields_set"):
+        for n_ in v.model_fields_set:
+            out += _uploads_in(getattr(v, n_, None), depth + 1)
+    return out
 
 
 def _scribble(o, depth=0):
@@ -632,16 +653,33 @@ def _run_workload(ch, variant, callers, uploads_spec, server_factory, own_transp
 
     upload_pools: Dict[int, Dict[int, Any]] = {}
     kept_models: Dict[int, Any] = {}
+    sent_upload_ids: set = set()
+    replaced_streams: Dict[int, Dict[int, bytes]] = {}
 
     def at_call_time(rec: CallRec, q, op, variables, args):
         """What the caller does right before issuing the call: rewind re-used uploads, re-use and edit its previous model.
         Also takes the snapshot of what the reference model expects for exactly this moment."""
+        repl = replaced_streams.setdefault(rec.caller, {})
         if rec.spec.get("reuse_upload_objects"):
-            for o in (rec.inputs[3] or {}).values():
+            if any(id(o_) in sent_upload_ids for o_ in _uploads_in(variables)):
+                info["upload_objects_sent_again"] = info.get("upload_objects_sent_again", 0) + 1
+            for uid_, o in (rec.inputs[3] or {}).items():
                 try:
-                    o.content.seek(0)
+                    if (uid_ + rec.k) % 2:
+                        o.content.seek(0)                       # rewound ...
+                    else:
+                        # ... or given a freshly opened stream: the file has changed on disk since (or the object now
+                        # stands for another file)
+                        d_ = uploads_spec[uid_]["data"]
+                        nd_ = (d_.encode("latin-1") if isinstance(d_, str) else d_) + b" (new revision for %s)" % rec.nonce.encode()
+                        o.content = io.BytesIO(nd_)
+                        repl[uid_] = nd_
                 except Exception:
                     pass
+            rec.upload_data_now = dict(repl)      # what this caller's kept Upload objects hold now
+        else:
+            for uid_ in (rec.inputs[3] or {}):
+                repl.pop(uid_, None)              # fresh objects were built for this call
         if rec.spec["via"] == "create_item":
             prev = kept_models.get(rec.caller)
             if rec.spec.get("reuse_model") and prev is not None and not rec.spec["multipart"] and not prev[1]:
@@ -653,6 +691,8 @@ def _run_workload(ch, variant, callers, uploads_spec, server_factory, own_transp
                 info["model_objects_reused"] = info.get("model_objects_reused", 0) + 1
             else:
                 kept_models[rec.caller] = (args["input"], rec.spec["multipart"])
+        for o_ in _uploads_in(variables):
+            sent_upload_ids.add(id(o_))
         try:
             from .models.request_model import expected_request, variables_json
             import copy as _copy
